@@ -222,6 +222,18 @@ class _Filter:
         self.ident = ident
         self.log = log
 
+    # Custodian filters are data-like objects: two filters built from the same policy text compare equal although they
+    # belong to different managers/regions.  The property speaks about THE filter installed for an evaluation, i.e. object
+    # identity, so every stand-in compares equal to every other one (seeded C17-m5: a context cached "per equal filter").
+    def __eq__(self, other):
+        return isinstance(other, _Filter)
+
+    def __ne__(self, other):
+        return not isinstance(other, _Filter)
+
+    def __hash__(self):
+        return 17
+
     def get_instance_image(self, resource):
         self.log.append(self.ident)
         return {"CreationDate": "2020-01-01T00:00:00Z", "Name": "x"}
